@@ -45,7 +45,7 @@ impl Problem {
             "sho" | "vdp" | "vdpe" | "lin2" => 2,
             "robertson" | "lin3" | "dae3a" | "dae3b" => 3,
             "dae3red" => 2,
-            "chain4" | "cascade4" => 4,
+            "chain4" | "cascade4" | "grow4" => 4,
             "empty" => 0,
             _ => 1,
         }
@@ -73,6 +73,7 @@ impl Problem {
             "dae3b" => vec![1.0, 0.5, 0.5],
             "dae3red" => vec![1.0, 0.5],
             "chain4" | "cascade4" => vec![1.0, 0.0, 0.0, 0.0],
+            "grow4" => vec![1.0; 4],
             "empty" => vec![],
             _ => vec![1.0],
         }
@@ -136,6 +137,11 @@ impl Problem {
                     let right = if i < 3 { y[i + 1] } else { 0.0 };
                     d[i] = -(1.0 + 0.5 * i as f64) * y[i] + p * left - 0.5 * right + if i == 0 { (0.3 * t).cos() } else { 0.0 };
                 }
+            }
+            // uncoupled growth with rates p, 2p, 4p, 8p (p = u1/h or alpha/h makes the iteration matrix of an implicit
+            // method exactly singular at step h, h/2, h/4, h/8)
+            "grow4" => {
+                for i in 0..4 { d[i] = p * (1u32 << i) as f64 * y[i]; }
             }
             "dae3a" => {
                 d[0] = y[0] - y[1] * y[2];
@@ -221,6 +227,10 @@ impl Problem {
                     if r > 0 { j[r * 4 + r - 1] = p; }
                     if r < 3 { j[r * 4 + r + 1] = -0.5; }
                 }
+            }
+            "grow4" => {
+                for v in j.iter_mut() { *v = 0.0; }
+                for r in 0..4 { j[r * 4 + r] = p * (1u32 << r) as f64; }
             }
             "dae3a" => {
                 j[0] = 1.0; j[1] = -y[2]; j[2] = -y[1];
